@@ -25,7 +25,8 @@ func (eng) Rule() string {
 		"explored breadth-first over ordered active lists from the empty machine with every " +
 		"Add/Remove/Set over every non-empty subset; (b) n=3 schemas (a PRNG sample in quick, the whole " +
 		"2^21 space in thorough); (c) PRNG-sampled schemas of 4..8 states incl. cycles, Auto, After and " +
-		"deep Add chains, driven by random mutation histories; (d) directed witnesses. An evaluation is " +
+		"deep Add chains, driven by random mutation histories; (d) directed witnesses; (e) schemas with Auto states and handlers that veto inside auto " +
+		"transitions, judged by R1 and R2 only. An evaluation is " +
 		"one accepted transition judged by clauses R1-R5; a distinct non-trivial item is a distinct " +
 		"(schema, ordered-before, mutation) triple whose schema has at least one relation."
 }
